@@ -270,7 +270,6 @@ func runDeps(c Case, w *world, o *lib.Obs) error {
 			}
 			if best[v] < inf && (hidden || !g.IsHidden(v)) && far[v] > best[v] {
 				nontrivial = true
-				o.Label("deps_node_at_two_depths")
 			}
 		}
 		for level := -1; level <= maxd+1; level++ {
@@ -316,6 +315,8 @@ func runDeps(c Case, w *world, o *lib.Obs) error {
 			}
 		}
 	}
+	o.LabelIf(nontrivial, "deps_node_at_two_depths")
+	o.LabelIf(len(c.Roots) > 1, "several_query_labels")
 	o.NonTrivial(nontrivial)
 	return nil
 }
@@ -366,7 +367,6 @@ func runRevdeps(c Case, w *world, o *lib.Obs) error {
 			}
 			if best[v] < inf && best[v] >= 1 && far[v] > best[v] && !dontCare[g.RuleKey(v)] {
 				nontrivial = true
-				o.Label("revdeps_node_at_two_depths")
 			}
 		}
 		for level := -1; level <= maxd+1; level++ {
@@ -403,6 +403,8 @@ func runRevdeps(c Case, w *world, o *lib.Obs) error {
 			}
 		}
 	}
+	o.LabelIf(nontrivial, "revdeps_node_at_two_depths")
+	o.LabelIf(len(c.Roots) > 1, "several_query_labels")
 	o.NonTrivial(nontrivial)
 	return nil
 }
@@ -484,8 +486,11 @@ func runSomePath(c Case, w *world, o *lib.Obs) error {
 					shortest = d[p[1]]
 				}
 				if len(c.Except) > 0 {
-					if free := w.reach(p[0], nil); free[p[1]] < inf && (!s || free[p[1]] < d[p[1]]) {
-						blocked = true
+					free := w.reach(p[0], nil)
+					for e := range except { // an excluded node lies on some path between the two
+						if free[e] < inf && w.reach(e, nil)[p[1]] < inf {
+							blocked = true
+						}
 					}
 				}
 			}
@@ -493,7 +498,7 @@ func runSomePath(c Case, w *world, o *lib.Obs) error {
 	}
 	o.LabelIf(strict, "path_exists")
 	o.LabelIf(!relaxed, "no_path")
-	o.LabelIf(blocked, "except_blocks_a_path")
+	o.LabelIf(blocked, "except_on_a_path")
 	o.NonTrivial((strict && shortest >= 2) || blocked)
 
 	var qerr error
@@ -640,15 +645,60 @@ func gen(t *rapid.T) Case {
 		c.Kind = "somepath"
 		c.From = pick(t, n, 1, 2, "from")
 		c.To = pick(t, n, 1, 2, "to")
+		if rapid.Bool().Draw(t, "farApart") { // a late target and an early one: long paths, or none
+			c.From = []int{n - 1 - rapid.IntRange(0, min(2, n-1)).Draw(t, "fromLate")}
+			c.To = []int{rapid.IntRange(0, min(3, n-1)).Draw(t, "toEarly")}
+			if rapid.Bool().Draw(t, "swap") {
+				c.From, c.To = c.To, c.From
+			}
+		}
 		c.ShowHidden = rapid.Bool().Draw(t, "showHidden")
-		if rapid.IntRange(0, 2).Draw(t, "useExcept") == 0 {
+		if rapid.Bool().Draw(t, "useExcept") {
 			provided := map[int]bool{}
 			for _, tg := range g.Targets {
 				for _, p := range tg.Provides {
 					provided[p] = true
 				}
 			}
-			for _, e := range pick(t, n, 1, 2, "except") {
+			// prefer nodes that lie between the endpoints, so that the except set matters
+			adj := g.Adjacency()
+			reachFrom := func(a int) map[int]bool {
+				seen := map[int]bool{a: true}
+				for stack := []int{a}; len(stack) > 0; {
+					u := stack[len(stack)-1]
+					stack = stack[:len(stack)-1]
+					for _, v := range adj[u] {
+						if !seen[v] {
+							seen[v] = true
+							stack = append(stack, v)
+						}
+					}
+				}
+				return seen
+			}
+			var between []int
+			for _, a := range append(append([]int{}, c.From...), c.To...) {
+				ra := reachFrom(a)
+				for m := 0; m < n; m++ {
+					if !ra[m] || m == a {
+						continue
+					}
+					rm := reachFrom(m)
+					for _, b := range append(append([]int{}, c.From...), c.To...) {
+						if b != m && b != a && rm[b] {
+							between = ggAppendNew(between, m)
+						}
+					}
+				}
+			}
+			cands := pick(t, n, 1, 2, "except")
+			if len(between) > 0 && rapid.IntRange(0, 3).Draw(t, "exceptBetween") > 0 {
+				cands = nil
+				for k := rapid.IntRange(1, 2).Draw(t, "betweenN"); k > 0; k-- {
+					cands = appendNew(cands, between[rapid.IntRange(0, len(between)-1).Draw(t, "betweenIdx")])
+				}
+			}
+			for _, e := range cands {
 				ok := len(g.Targets[e].Provides) == 0 && !provided[e]
 				for _, x := range append(append([]int{}, c.From...), c.To...) {
 					// endpoints and members of their rules stay out of the except set
@@ -662,6 +712,8 @@ func gen(t *rapid.T) Case {
 	}
 	return c
 }
+
+func ggAppendNew(s []int, v int) []int { return appendNew(s, v) }
 
 func appendNew(s []int, v int) []int {
 	for _, x := range s {
